@@ -90,15 +90,17 @@ partial def parseCsvOp (toks : List String) : Option CsvFile :=
     | [] => none
   | _ => none
 
-def csvModel (f : CsvFile) : String :=
-  match csvRun f with
+def parseMask (s : String) : List Bool := s.toList.map (· == '1')
+
+def csvModel (f : CsvFile) (keep : List Bool := []) : String :=
+  match csvRunKeep keep f with
   | .errCreate => "err:create"
   | .fuel => "fuel"
   | .errRun names tys => "err:run " ++ encodeSchema names tys
   | .ok names tys recs => "ok " ++ encodeSchema names tys ++ encodeRecs recs
 
-def jsonModel (rows : List J) : String :=
-  match jsonRun rows with
+def jsonModel (rows : List J) (keep : List Bool := []) : String :=
+  match jsonRunKeep keep rows with
   | .errCreate => "err:create"
   | .fuel => "fuel"
   | .errRun schema => "err:run " ++ encodeSchema (schema.map (·.1)) (schema.map (·.2))
@@ -132,13 +134,16 @@ def linesModel (sepTok contentTok : String) : String :=
 def modelFiles (toks : List String) : Option String :=
   match toks with
   | "json" :: _seed :: n :: rest => (parseRows n.toNat! rest).map fun (rows, _) => jsonModel rows
-  | "csv" :: rest => (parseCsvOp rest).map csvModel
+  | "csv" :: rest => (parseCsvOp rest).map fun f => csvModel f
   | "lines" :: sep :: content :: _ => some (linesModel sep content)
+  -- the executing datasource gets a pruned schema (cyclic 0/1 mask over the inferred fields)
+  | "proj" :: mask :: "json" :: _seed :: n :: rest => (parseRows n.toNat! rest).map fun (rows, _) => jsonModel rows (parseMask mask)
+  | "proj" :: mask :: "csv" :: rest => (parseCsvOp rest).map fun f => csvModel f (parseMask mask)
   -- data piped on stdin (chunked, with preview opens): transparent (`Octo.C23.stdin_replay`)
   | "stdin" :: _chunkseed :: _previews :: inner =>
     match inner with
     | "json" :: _seed :: n :: rest => (parseRows n.toNat! rest).map fun (rows, _) => jsonModel rows
-    | "csv" :: rest => (parseCsvOp rest).map csvModel
+    | "csv" :: rest => (parseCsvOp rest).map fun f => csvModel f
     | "lines" :: sep :: content :: _ => some (linesModel sep content)
     | _ => none
   | _ => none
@@ -216,7 +221,7 @@ def jsonRowCovered (names : List Name) (tys : List Ty) (row : J) : Bool :=
         | none => true
   | _ => false
 
-def judgeJson (conf : Bool) (rows : List J) (out : List String) : String :=
+def judgeJson (conf : Bool) (rows : List J) (out : List String) (projected : Bool := false) : String :=
   let o := parseImpl out
   if !o.wellFormed then s!"bad unparsable-impl-output {o.status}"
   else if o.status == "ok" then
@@ -227,7 +232,7 @@ def judgeJson (conf : Bool) (rows : List J) (out : List String) : String :=
       match firstFail (fun (p : J × List Value) => jsonRowOk o.names o.tys p.1 p.2) (rows.zip o.recs) with
       | some i => s!"bad row {i} does-not-carry-the-values-of-line {i}"
       | none =>
-        match firstFail (jsonRowCovered o.names o.tys) rows with
+        match (if projected then none else firstFail (jsonRowCovered o.names o.tys) rows) with
         | some i => s!"known json-key-beyond-preview-dropped row {i} has a key the inferred schema has no place for"
         | none => "ok"
   else if o.status == "err:run" then
@@ -249,26 +254,26 @@ def expectedCsvNames (f : CsvFile) : List Name :=
   | some h => h
   | none => if f.rows.isEmpty then [] else (List.range f.ncols).map columnName
 
-def judgeCsv (conf : Bool) (f : CsvFile) (out : List String) : String :=
+def judgeCsv (conf : Bool) (f : CsvFile) (out : List String) (keep : List Bool := []) : String :=
   let o := parseImpl out
   let ragged := firstRagged f.ncols 0 f.rows
   if !o.wellFormed then s!"bad unparsable-impl-output {o.status}"
   else if o.status == "ok" then
     if ragged.isSome then "bad ragged-file-accepted"
-    else if o.names != expectedCsvNames f then "bad column-names"
+    else if o.names != keepCols keep (expectedCsvNames f) then "bad column-names"
     else if o.recs.length != f.rows.length then s!"bad record-count {o.recs.length} for {f.rows.length} rows"
     else match (if conf then firstFail (fun (r : List Value) => all2 (fun t v => conforms t v) o.tys r) o.recs else none) with
       | some i => s!"bad row {i} holds-a-value-that-does-not-match-the-reported-column-type"
       | none =>
-      match firstFail (fun (p : List Cell × List Value) => all2 (fun c v => cellRepresents v c) p.1 p.2) (f.rows.zip o.recs) with
+      match firstFail (fun (p : List Cell × List Value) => all2 (fun c v => cellRepresents v c) (keepCols keep p.1) p.2) (f.rows.zip o.recs) with
       | some i => s!"bad row {i} does-not-carry-the-values-of-line {i}"
       | none => "ok"
   else if o.status == "err:run" then
     if ragged.isSome then "ok"
-    else match firstFail (fun (r : List Cell) => all2 (fun t c => cellFits t c) o.tys r) (f.rows.take previewRows) with
+    else match firstFail (fun (r : List Cell) => all2 (fun t c => cellFits t c) o.tys (keepCols keep r)) (f.rows.take previewRows) with
       | some i => s!"bad error-on-previewed-row {i} which-the-inferred-schema-does-not-accept"
       | none =>
-        match firstFail (fun (r : List Cell) => all2 (fun t c => cellFits t c) o.tys r) f.rows with
+        match firstFail (fun (r : List Cell) => all2 (fun t c => cellFits t c) o.tys (keepCols keep r)) f.rows with
         | some _ => "ok"
         | none => "bad error-on-a-file-whose-rows-all-fit-the-schema"
   else if o.status == "err:create" then
